@@ -175,6 +175,17 @@ theorem c07_history_tag_input_injective (t t' e e' : SyncEnc.Str) (ht : '/' ∉ 
     (h : t ++ '/' :: e = t' ++ '/' :: e') : t = t' ∧ e = e' :=
   SyncEnc.chain_input_injective t t' e e' ht ht' h
 
+/-- **a failed token write costs nothing**: when the file of the new token cannot be written, the collection's sync
+    state is exactly the state a request with an unknown token leaves (history advanced, no token) — so every theorem
+    above, being about all histories of requests, covers histories with such faults; if the token's file existed
+    already the request is an ordinary sync -/
+theorem c07_failed_token_write (cfg : Cfg) (s : State) :
+    syncFault cfg s = (sync cfg s .unknown).1 ∨ syncFault cfg s = (sync cfg s .none).1 := by
+  unfold syncFault
+  by_cases h : ((survey cfg s).1.tokens (survey cfg s).2).isNone
+  · left; simp [h, sync]
+  · right; simp [h]
+
 /-- a malformed token is refused before anything is read or written -/
 theorem c07_malformed_refused (cfg : Cfg) (s : State) : sync cfg s .malformed = (s, .refused) := rfl
 
